@@ -171,7 +171,7 @@ impl<'t, 'c> Gen<'t, 'c> {
             Ty::Long => Expr::Lit(Lit::Whole(*self.t.pick(&[40000, 65536, 100000, 70000, 2147483647, 1000000]))),
             Ty::Single => {
                 let w = *self.t.pick(&SMALL);
-                let q = *self.t.pick(&[2i64, 1, 3, 0]);
+                let q = *self.t.pick(&[1i64, 3, 2, 0]);
                 Expr::Lit(Lit::Frac { num: w * 4 + q, shift: 2, double: false })
             }
             Ty::Double => {
@@ -179,7 +179,7 @@ impl<'t, 'c> Gen<'t, 'c> {
                     Expr::Lit(Lit::WholeDouble(*self.t.pick(&SMALL)))
                 } else {
                     let w = *self.t.pick(&SMALL);
-                    let q = *self.t.pick(&[2i64, 1, 3, 0]);
+                    let q = *self.t.pick(&[1i64, 3, 2, 0]);
                     Expr::Lit(Lit::Frac { num: w * 4 + q, shift: 2, double: true })
                 }
             }
@@ -996,4 +996,296 @@ impl<'t, 'c> Gen<'t, 'c> {
 
 fn lit_i(v: i64) -> Expr {
     if v < 0 { Expr::Un(UnOp::Neg, Box::new(Expr::Lit(Lit::Whole(-v)))) } else { Expr::Lit(Lit::Whole(v)) }
+}
+
+// ------------------------------------------------------------------------------------------------
+// Control-flow trace programs (C05): every statement prints a token, so stdout is the executed path.
+// ------------------------------------------------------------------------------------------------
+
+fn sv(name: &str, var: usize, ty: Ty) -> LValue {
+    LValue { name: name.to_string(), var, index: vec![], fields: vec![], sty: STy::B(ty) }
+}
+fn ld(l: &LValue) -> Expr {
+    Expr::Load(l.clone())
+}
+fn s_lit(s: &str) -> Expr {
+    Expr::Lit(Lit::Str(s.to_string()))
+}
+fn pr(items: Vec<Expr>) -> Stmt {
+    let mut v = vec![];
+    for (i, e) in items.into_iter().enumerate() {
+        if i > 0 {
+            v.push(PrintItem::Semi);
+        }
+        v.push(PrintItem::E(e));
+    }
+    Stmt::Print(v)
+}
+fn b(op: BinOp, a: Expr, c: Expr) -> Expr {
+    Expr::Bin(op, Box::new(a), Box::new(c))
+}
+
+pub struct ControlVars {
+    z: LValue,
+    big: LValue,
+    idx: LValue,
+    n: LValue,
+    small: LValue,
+    sres: LValue,
+    tres: LValue,
+    arr: usize,
+    cnt: LValue,
+}
+
+impl<'t, 'c> Gen<'t, 'c> {
+    fn tok(&mut self, prefix: &str) -> Stmt {
+        self.trace_seq += 1;
+        pr(vec![s_lit(&format!("{}{}", prefix, self.trace_seq))])
+    }
+
+    fn new_label(&mut self, prefix: &str) -> String {
+        self.label_seq += 1;
+        format!("{}{}", prefix, self.label_seq)
+    }
+
+    /// [poison; failing statement] of a kind; `kind` 4 (out of data) only when asked.
+    fn failing(&mut self, cv: &ControlVars, kind: usize) -> Vec<Stmt> {
+        match kind {
+            0 => vec![Stmt::Assign(cv.z.clone(), lit_i(0)), Stmt::Assign(cv.sres.clone(), b(BinOp::Div, lit_i(8), ld(&cv.z)))],
+            1 => vec![Stmt::Assign(cv.big.clone(), Expr::Lit(Lit::Whole(100000))), Stmt::Assign(cv.small.clone(), ld(&cv.big))],
+            2 => vec![
+                Stmt::Assign(cv.idx.clone(), lit_i(*self.t.pick(&[5i64, 3, -1, 99]))),
+                Stmt::Assign(LValue { name: "ARR%".into(), var: cv.arr, index: vec![ld(&cv.idx)], fields: vec![], sty: STy::B(Ty::Int) }, lit_i(7)),
+            ],
+            3 => vec![Stmt::Assign(cv.n.clone(), lit_i(-1)), Stmt::Assign(cv.tres.clone(), Expr::BuiltIn { name: "LEFT$".into(), args: vec![s_lit("abcdef"), ld(&cv.n)], ty: Ty::Str })],
+            _ => vec![Stmt::Read(vec![cv.small.clone()])],
+        }
+    }
+
+    fn repairs(&self, cv: &ControlVars) -> Vec<Stmt> {
+        vec![Stmt::Assign(cv.z.clone(), lit_i(2)), Stmt::Assign(cv.big.clone(), lit_i(12)), Stmt::Assign(cv.idx.clone(), lit_i(1)), Stmt::Assign(cv.n.clone(), lit_i(2))]
+    }
+
+    /// Wraps statements in an encloser so that they sit first / in the middle / last in a block.
+    fn enclose(&mut self, inner: Vec<Stmt>) -> Vec<Stmt> {
+        let pos = self.t.choose(3);
+        let mut body = vec![];
+        if pos >= 1 {
+            body.push(self.tok("b"));
+        }
+        body.extend(inner);
+        if pos <= 1 && self.t.chance(2, 3) {
+            body.push(self.tok("a"));
+        }
+        match self.t.choose(7) {
+            0 => body,
+            1 => vec![Stmt::If { arms: vec![(lit_i(-1), body)], else_: None }],
+            2 => {
+                let c = self.fresh_counter(Ty::Int);
+                vec![Stmt::For { var: c, from: lit_i(1), to: lit_i(2), step: None, body, next_names: false }]
+            }
+            3 => {
+                let c = self.fresh_counter(Ty::Int);
+                let mut bd = body;
+                bd.push(Stmt::Assign(c.clone(), b(BinOp::Add, ld(&c), lit_i(1))));
+                vec![Stmt::Assign(c.clone(), lit_i(0)), Stmt::While { cond: b(BinOp::Lt, ld(&c), lit_i(2)), body: bd }]
+            }
+            4 => {
+                let c = self.fresh_counter(Ty::Int);
+                let mut bd = body;
+                bd.push(Stmt::Assign(c.clone(), b(BinOp::Add, ld(&c), lit_i(1))));
+                vec![Stmt::Assign(c.clone(), lit_i(0)), Stmt::Do { kind: DoKind::BottomUntil, cond: b(BinOp::Ge, ld(&c), lit_i(2)), body: bd }]
+            }
+            5 => vec![Stmt::Select { subject: lit_i(1), cases: vec![(vec![CaseItem::Val(lit_i(1))], body)], else_: None }],
+            _ => {
+                let c = self.fresh_counter(Ty::Int);
+                vec![Stmt::For { var: c, from: lit_i(2), to: lit_i(1), step: Some(lit_i(-1)), body, next_names: false }]
+            }
+        }
+    }
+
+    /// A nest of loops with a GOTO that leaves the inner loop(s); counters are printed afterwards.
+    fn goto_out_nest(&mut self) -> Vec<Stmt> {
+        let a = self.fresh_counter(Ty::Int);
+        let bb = self.fresh_counter(Ty::Int);
+        let label = self.new_label("LX");
+        let inner_kind = self.t.choose(3);
+        let target_inside_outer = self.t.chance(2, 3);
+        let trig = 1 + self.t.choose(2) as i64;
+        let jump = Stmt::IfLine { cond: b(BinOp::Eq, ld(&bb), lit_i(trig)), then_: Box::new(Stmt::Goto(label.clone())), else_: None };
+        let inner_body = vec![pr(vec![s_lit("i"), ld(&a), ld(&bb)]), jump];
+        let inner: Vec<Stmt> = match inner_kind {
+            0 => vec![Stmt::For { var: bb.clone(), from: lit_i(1), to: lit_i(3), step: None, body: inner_body, next_names: false }],
+            1 => vec![Stmt::For { var: bb.clone(), from: lit_i(3), to: lit_i(1), step: Some(lit_i(-1)), body: inner_body, next_names: false }],
+            _ => {
+                let mut bd = vec![Stmt::Assign(bb.clone(), b(BinOp::Add, ld(&bb), lit_i(1)))];
+                bd.extend(inner_body);
+                vec![Stmt::Assign(bb.clone(), lit_i(0)), Stmt::While { cond: b(BinOp::Lt, ld(&bb), lit_i(3)), body: bd }]
+            }
+        };
+        let mut outer_body = inner;
+        outer_body.push(self.tok("n"));
+        if target_inside_outer {
+            outer_body.push(Stmt::Label(label.clone()));
+            outer_body.push(pr(vec![s_lit("o"), ld(&a), ld(&bb)]));
+        }
+        let outer_step = match self.t.choose(3) {
+            0 => None,
+            1 => Some(lit_i(1)),
+            _ => Some(lit_i(2)),
+        };
+        let mut v = vec![Stmt::For { var: a.clone(), from: lit_i(1), to: lit_i(3), step: outer_step, body: outer_body, next_names: false }];
+        if !target_inside_outer {
+            v.push(self.tok("s"));
+            v.push(Stmt::Label(label));
+        }
+        v.push(pr(vec![s_lit("e"), ld(&a), ld(&bb)]));
+        v
+    }
+
+    pub fn control_program(mut self) -> Program {
+        // module-level state
+        let z = sv("Z%", self.add_var("Z%".into(), STy::B(Ty::Int), vec![], true), Ty::Int);
+        let big = sv("BIG&", self.add_var("BIG&".into(), STy::B(Ty::Long), vec![], true), Ty::Long);
+        let idx = sv("IDX%", self.add_var("IDX%".into(), STy::B(Ty::Int), vec![], true), Ty::Int);
+        let n = sv("N%", self.add_var("N%".into(), STy::B(Ty::Int), vec![], true), Ty::Int);
+        let small = sv("SM%", self.add_var("SM%".into(), STy::B(Ty::Int), vec![], true), Ty::Int);
+        let sres = sv("SR!", self.add_var("SR!".into(), STy::B(Ty::Single), vec![], true), Ty::Single);
+        let tres = sv("TR$", self.add_var("TR$".into(), STy::B(Ty::Str), vec![], true), Ty::Str);
+        let cnt = sv("CNT%", self.add_var("CNT%".into(), STy::B(Ty::Int), vec![], true), Ty::Int);
+        let sentinel = sv("SENT%", self.add_var("SENT%".into(), STy::B(Ty::Int), vec![], true), Ty::Int);
+        let arr = self.add_var("ARR%".into(), STy::B(Ty::Int), vec![(0, 2)], true);
+        let cv = ControlVars { z, big, idx, n, small, sres, tres, arr, cnt };
+        let mut main: Vec<Stmt> = vec![];
+        main.push(Stmt::Dim(Dim { var: arr, name: "ARR%".into(), bounds: vec![(0, 2)], explicit_lower: false, sty: STy::B(Ty::Int), extended: false, shared: false }));
+        main.push(Stmt::Assign(sentinel.clone(), lit_i(77)));
+        let nh = 1 + self.t.choose(2);
+        let handler_labels: Vec<String> = (0..nh).map(|k| format!("H{}", k + 1)).collect();
+        let nr = self.t.choose(3);
+        let routine_labels: Vec<String> = (0..nr).map(|k| format!("R{}", k + 1)).collect();
+        let mut resume_targets: Vec<String> = vec![];
+        let mut handler_resume: Vec<usize> = vec![];
+        for _ in 0..nh {
+            // 0 = RESUME NEXT (simplest), 1 = RESUME, 2 = RESUME label
+            handler_resume.push(self.t.choose(3));
+        }
+        let mut active: Option<usize> = None;
+        let segs = 2 + self.t.choose(7);
+        let mut has_data = false;
+        for _ in 0..segs {
+            match self.t.choose(12) {
+                0 | 1 => main.push(self.tok("t")),
+                2 | 3 => {
+                    // enable / switch / disable a handler
+                    if active.is_some() && self.t.chance(1, 4) {
+                        main.push(Stmt::OnErrorGoto(None));
+                        active = None;
+                    } else {
+                        let h = self.t.choose(nh);
+                        main.push(Stmt::OnErrorGoto(Some(handler_labels[h].clone())));
+                        active = Some(h);
+                    }
+                }
+                4 | 5 | 6 => {
+                    // failing statement somewhere in a block; out-of-DATA only where RESUME would not retry it
+                    let allow_read = active.map(|h| handler_resume[h] != 1).unwrap_or(true);
+                    let kind = if allow_read { self.t.choose(5) } else { self.t.choose(4) };
+                    if kind == 4 {
+                        has_data = true;
+                    }
+                    let f = self.failing(&cv, kind);
+                    let e = self.enclose(f);
+                    main.extend(e);
+                    main.push(self.tok("c"));
+                }
+                7 | 8 => {
+                    let v = self.goto_out_nest();
+                    main.extend(v);
+                }
+                9 => {
+                    if nr > 0 {
+                        let r = self.t.choose(nr);
+                        let g = vec![Stmt::Gosub(routine_labels[r].clone())];
+                        let e = if self.t.chance(1, 2) { self.enclose(g) } else { g };
+                        main.extend(e);
+                        main.push(self.tok("g"));
+                    } else {
+                        main.push(self.tok("t"));
+                    }
+                }
+                10 => {
+                    // counter-guarded backward GOTO
+                    let l = self.new_label("LB");
+                    main.push(Stmt::Assign(cv.cnt.clone(), lit_i(0)));
+                    main.push(Stmt::Label(l.clone()));
+                    main.push(Stmt::Assign(cv.cnt.clone(), b(BinOp::Add, ld(&cv.cnt), lit_i(1))));
+                    main.push(pr(vec![s_lit("k"), ld(&cv.cnt)]));
+                    main.push(Stmt::IfLine { cond: b(BinOp::Lt, ld(&cv.cnt), lit_i(3)), then_: Box::new(Stmt::Goto(l)), else_: None });
+                }
+                _ => {
+                    // forward GOTO over a token; rarely a stray RETURN / RESUME
+                    match self.t.choose(8) {
+                        0 => main.push(Stmt::Return),
+                        1 => main.push(Stmt::Resume(ResumeKind::Next)),
+                        _ => {
+                            let l = self.new_label("LF");
+                            main.push(Stmt::Goto(l.clone()));
+                            main.push(self.tok("x"));
+                            main.push(Stmt::Label(l));
+                        }
+                    }
+                }
+            }
+            // a landing label for RESUME <label> handlers, placed after some segment
+            if resume_targets.len() < nh && self.t.chance(1, 3) {
+                let l = format!("LR{}", resume_targets.len() + 1);
+                main.push(Stmt::Label(l.clone()));
+                main.push(self.tok("l"));
+                resume_targets.push(l);
+            }
+        }
+        while resume_targets.len() < nh {
+            let l = format!("LR{}", resume_targets.len() + 1);
+            main.push(Stmt::Label(l.clone()));
+            main.push(self.tok("l"));
+            resume_targets.push(l);
+        }
+        main.push(pr(vec![s_lit("end"), ld(&sentinel), ld(&cv.z), ld(&cv.big), ld(&cv.idx), ld(&cv.n), ld(&cv.small), ld(&cv.sres), ld(&cv.tres)]));
+        main.push(Stmt::End);
+        // GOSUB routines
+        for (k, l) in routine_labels.iter().enumerate() {
+            main.push(Stmt::Label(l.clone()));
+            main.push(self.tok("r"));
+            if k + 1 < nr && self.t.chance(1, 2) {
+                main.push(Stmt::Gosub(routine_labels[k + 1].clone()));
+                main.push(self.tok("q"));
+            }
+            if self.t.chance(1, 4) {
+                let kk = self.t.choose(4);
+                let f = self.failing(&cv, kk);
+                main.extend(f);
+                main.push(self.tok("w"));
+            }
+            main.push(Stmt::Return);
+        }
+        // handlers
+        for (k, l) in handler_labels.iter().enumerate() {
+            main.push(Stmt::Label(l.clone()));
+            main.push(pr(vec![s_lit(&format!("h{}", k + 1)), Expr::BuiltIn { name: "ERR".into(), args: vec![], ty: Ty::Int }]));
+            main.push(Stmt::Assign(sentinel.clone(), b(BinOp::Add, ld(&sentinel), lit_i(1))));
+            match handler_resume[k] {
+                0 => main.push(Stmt::Resume(ResumeKind::Next)),
+                1 => {
+                    main.extend(self.repairs(&cv));
+                    main.push(Stmt::Resume(ResumeKind::Same));
+                }
+                _ => main.push(Stmt::ResumeLabel(resume_targets[k].clone())),
+            }
+        }
+        if has_data && self.t.chance(1, 2) {
+            main.push(Stmt::Data(vec![DataItem::Num(false, Lit::Whole(5))]));
+        }
+        self.prog.main = main;
+        self.prog
+    }
 }
